@@ -120,8 +120,12 @@ func runProperty(repo, specs, prop, tier, out string) int {
 	}
 	p, err := LoadProg(repo, []string{specs})
 	replayDir := filepath.Join(vd, "out", "replay")
+	if alt := os.Getenv("VERIF_SCRATCH_OUT"); alt != "" {
+		// self-test runs against mutated scratch copies must not overwrite real evidence
+		replayDir = filepath.Join(alt, "replay")
+	}
 	os.MkdirAll(replayDir, 0o755)
-	os.MkdirAll(filepath.Join(vd, "evidence"), 0o755)
+	os.MkdirAll(evidenceDir(vd), 0o755)
 	if err != nil {
 		// the tree does not load (or a contract file does not parse): undecided, reported as a violation of tooling input
 		rf := filepath.Join(replayDir, prop+"-load.json")
@@ -133,6 +137,9 @@ func runProperty(repo, specs, prop, tier, out string) int {
 	timeout := 10 * time.Second
 	if tier == "thorough" {
 		timeout = 60 * time.Second
+	}
+	if alt := os.Getenv("VERIF_SCRATCH_OUT"); alt != "" {
+		out = filepath.Join(alt, "smt")
 	}
 	solver := NewSolver(filepath.Join(out, prop), timeout, tier == "thorough")
 	// select functions
@@ -411,7 +418,14 @@ func writeEvidence(vd, prop, tier string, seed int, results []*namedResult, func
 		"wall_s":      wall.Seconds(),
 		"violations":  violations,
 	}
-	writeJSON(filepath.Join(vd, "evidence", prop+".json"), ev)
+	writeJSON(filepath.Join(evidenceDir(vd), prop+".json"), ev)
 }
 
 // tryReplay: see replay.go
+
+func evidenceDir(vd string) string {
+	if alt := os.Getenv("VERIF_SCRATCH_OUT"); alt != "" {
+		return filepath.Join(alt, "evidence")
+	}
+	return filepath.Join(vd, "evidence")
+}
